@@ -15,7 +15,7 @@ ordering rules (update order of a MAC object, write order of a hash) look at.
 """
 import ast
 
-from .cfg import enum_paths
+from .cfg import enum_paths, static_truth
 from .consts import alts
 from .repo import unparse
 
@@ -179,6 +179,8 @@ class PathEval:
             return ("bool", type(e.op).__name__) + tuple(self.term(v, env, events, node) for v in e.values)
         if isinstance(e, (ast.Tuple, ast.List)):
             return ("tuple",) + tuple(self.term(v, env, events, node) for v in e.elts)
+        if isinstance(e, ast.IfExp) and static_truth(e.test) is not None:
+            return self.term(e.body if static_truth(e.test) else e.orelse, env, events, node)
         if isinstance(e, ast.IfExp):
             return ("ifexp", self.term(e.test, env, events, node), self.term(e.body, env, events, node), self.term(e.orelse, env, events, node))
         if isinstance(e, ast.Dict):
